@@ -271,13 +271,17 @@ C04(job) ==
       outs == {o \in Outputs(pr) : o \in DOMAIN ref.env /\ ref.env[o] # Sent}
       cnt(n) == Cardinality(Positions(r.calls, meta.frame, n))
       fin == r.status = "completed"
+      isloop == meta.shape \in {"while", "dowhile"}
       topvals == FilterOut(job.prog, r.vals, <<"**">>)
   IN [ bounded  |-> r.steps <= job.prog.max_iter,
        outcome  |-> r.status = "completed" \/ (r.status = "failed" /\ r.err.kind = "infinite"),
-       counts   |-> fin => \A n \in LoopNodes(meta) : cnt(n) = Get(ref.cnt, n, 0),
-       values   |-> (fin /\ meta.frame = "") => [o \in outs |-> ref.env[o]] = topvals,
-       nomore   |-> \A n \in LoopNodes(meta) : cnt(n) <= Get(ref.cnt, n, 0),
-       prefix   |-> meta.frame = "" => \A o \in DOMAIN topvals :
+       counts   |-> (fin /\ isloop) => \A n \in LoopNodes(meta) : cnt(n) = Get(ref.cnt, n, 0),
+       values   |-> (fin /\ isloop /\ meta.frame = "") => [o \in outs |-> ref.env[o]] = topvals,
+       nomore   |-> isloop => \A n \in LoopNodes(meta) : cnt(n) <= Get(ref.cnt, n, 0),
+       \* hand-computed expectations of special templates (e.g. a gate whose one-shot signal never
+       \* becomes fresh again: its single decision allows a single execution of the target)
+       expect   |-> fin => \A k \in 1..Len(meta.expect) : cnt(meta.expect[k][1]) = meta.expect[k][2],
+       prefix   |-> (isloop /\ meta.frame = "") => \A o \in DOMAIN topvals :
                         \E i \in 1..Len(ref.trace) : o \in DOMAIN ref.trace[i] /\ ref.trace[i][o] = topvals[o] ]
 
 C04Aux(job) ==
@@ -296,7 +300,17 @@ L1(prop, job) == CASE prop = "C01" -> C01(job)
                    [] prop = "C16" -> C16(job)
                    [] prop = "C11" -> C11(job)
                    [] OTHER -> [none |-> TRUE]
+\* bounds of a partial result: lower = what earlier steps completed, upper = every successful
+\* sibling of the failing step included (the async runner's view)
+C11Aux(job) ==
+  LET r == RunOf(job)
+      ra == RunProg(job.prog, "", job.provided, World0, "async")
+  IN [ lower |-> FilterOut(job.prog, r.pre, job.select),
+       upper |-> FilterOut(job.prog, ra.vals, job.select),
+       upper_err |-> ra.err ]
+
 Aux(prop, job) == CASE prop = "C01" -> C01Aux(job)
+                    [] prop = "C11" -> C11Aux(job)
                     [] prop = "C04" -> C04Aux(job)
                     [] OTHER -> [none |-> TRUE]
 =======================================================================
